@@ -1228,10 +1228,9 @@ class MountPointStore(RoutingStore):
         # the root, the mount points and their parents are directories of this store whether or not a default store exists
         if self.is_dir(key):
             return True
-        try:
-            return super().is_supported(key)
-        except KeyRouteNotFoundStoreException:
-            return False
+        # a key without a route is not declared unsupported (an enclosing mount-point store would hand it to another store):
+        # the missing route is reported by the operation itself
+        return super().is_supported(key)
 
     def get_metadata(self, key):
         try:
